@@ -84,6 +84,11 @@ fn main() {
         eprintln!("tier must be quick or thorough");
         std::process::exit(2);
     }
+    if matches!(prop, "C03" | "C12" | "C18") {
+        // these checks re-execute this binary in child processes: take the private copy now, before a
+        // concurrent rebuild of the engine can replace the file
+        let _ = run::child_exe();
+    }
     watch::start(prop);
     let code = match prop {
         "C01" | "C02" | "C04" | "C05" => props::base::run(prop, tier),
